@@ -58,10 +58,38 @@ def constructor_facts(repo: Repo):
             facts['product'] = norm(c)
         elif isinstance(c.func, ast.Attribute) and c.func.attr == 'eliminate_1to1_forks':
             facts['elim'] = True
+    # the statements that turn one chunk of the library text into (name, body) are *evaluated* per chunk (Engine M)
+    loop = next((l for l in find_all(f, ast.For) if isinstance(l.iter, ast.Call) and call_name(l.iter) == 're.split'
+                 and len(l.iter.args) == 2 and norm(l.iter.args[1]) == 'lib_src' and isinstance(l.target, ast.Name)), None)
+    if loop is not None:
+        pre, parse_arg, name_expr = [], None, None
+        for st in loop.body:
+            calls = [c for c in find_all(st, ast.Call) if call_name(c) == 'bench.parse']
+            if calls and parse_arg is None:
+                parse_arg = calls[0].args[0] if calls[0].args else None
+                continue
+            if parse_arg is None:
+                pre.append(st)
+            elif isinstance(st, ast.Assign) and len(st.targets) == 1 and norm(st.targets[0]) == 'c.name':
+                name_expr = st.value
+                break
+        if parse_arg is not None and name_expr is not None:
+            facts['chunk_eval'] = (loop.target.id, pre, parse_arg, name_expr)
+            facts.setdefault('name_sep', ' ')
     for k in ('split_cells', 'split_braces', 'strip', 'name_sep', 'bench_arg', 'product'):
         if k not in facts:
             raise ModelError(f'TechLib.__init__: step {k} not recognised (library reader cannot mirror the constructor)')
     return mod, f, facts
+
+
+def chunk_name_body(facts, chunk):
+    """(name, body) the constructor derives from one chunk of library text, None if it skips the chunk."""
+    from . import minieval
+    var, pre, parse_arg, name_expr = facts['chunk_eval']
+    env = {var: chunk}
+    if minieval.run(pre, env) == 'continue':
+        return None
+    return minieval.ev(name_expr, env), minieval.ev(parse_arg, env)
 
 
 def library_sources(repo: Repo):
@@ -140,11 +168,17 @@ def parse_bench_body(cd: CellDef):
 def read_library(name, text, facts):
     cells = []
     for c_str in re.split(facts['split_cells'], text):
-        c_str = re.sub(facts['strip'][0], facts['strip'][1], c_str)
-        name_len = c_str.find(facts['name_sep'])
-        if name_len <= 0:
-            continue
-        cd = CellDef(name, c_str[:name_len], c_str[name_len:], c_str)
+        if 'chunk_eval' in facts:
+            nb = chunk_name_body(facts, c_str)
+            if nb is None:
+                continue
+            cd = CellDef(name, nb[0], nb[1], c_str)
+        else:
+            c_str = re.sub(facts['strip'][0], facts['strip'][1], c_str)
+            name_len = c_str.find(facts['name_sep'])
+            if name_len <= 0:
+                continue
+            cd = CellDef(name, c_str[:name_len], c_str[name_len:], c_str)
         parse_bench_body(cd)
         parts = [s[1:-1].split(',') if s[0] == '{' else [s] for s in re.split(facts['split_braces'], cd.raw_name) if len(s) > 0]
         cd.names = [''.join(item) for item in product(*parts)]
